@@ -215,41 +215,43 @@ func (m *Model) buildMap(named *types.Named, iface string) *MapModel {
 			bad("API method %s has no body", n)
 		}
 	}
-	// core: the in-package callee shared by all read-modify-write wrappers
-	cores := map[*ssa.Function]int{}
-	for _, n := range coreUsers {
-		f := mm.Methods[n]
-		if f == nil {
+	// core: the method of the map type that takes a function parameter, acquires a bucket lock and calls that
+	// parameter (the locked read-modify-write all write wrappers end up in, directly or through one another)
+	for _, f := range p.Funcs {
+		if f.Pkg != p.Xsync || f.Parent() != nil || f.Signature.Recv() == nil || namedOf(f.Signature.Recv().Type()) != mm.Name {
 			continue
 		}
-		seen := map[*ssa.Function]bool{}
+		var fnParam *ssa.Parameter
+		for _, prm := range f.Params {
+			if _, ok := prm.Type().Underlying().(*types.Signature); ok {
+				fnParam = prm
+			}
+		}
+		if fnParam == nil || !m.acquiresBucketLock(f) {
+			continue
+		}
+		calls := false
 		Instrs(f, func(in ssa.Instruction) {
-			if c, ok := in.(ssa.CallInstruction); ok {
-				if cal := Callee(c); cal != nil && cal.Pkg == p.Xsync && !seen[cal] {
-					hasFn := false
-					for _, prm := range cal.Params {
-						if _, ok := prm.Type().Underlying().(*types.Signature); ok {
-							hasFn = true
-						}
-					}
-					if hasFn {
-						seen[cal] = true
-						cores[cal]++
-					}
-				}
+			if c, ok := in.(ssa.CallInstruction); ok && c.Common().Value == ssa.Value(fnParam) {
+				calls = true
 			}
 		})
-	}
-	for f, n := range cores {
-		if n == len(coreUsers) {
-			if mm.Core != nil {
+		// helpers extracted from the core may call the function value; the core is the one with mode parameters
+		nBool := 0
+		for _, prm := range f.Params {
+			if b, ok := prm.Type().Underlying().(*types.Basic); ok && b.Kind() == types.Bool {
+				nBool++
+			}
+		}
+		if (calls || nBool >= 2) && nBool >= 1 {
+			if mm.Core != nil && mm.Core != f {
 				bad("two candidate compute cores: %s and %s", FuncName(mm.Core), FuncName(f))
 			}
 			mm.Core = f
 		}
 	}
 	if mm.Core == nil {
-		bad("no single compute core shared by %v", coreUsers)
+		bad("no compute core found (method with a function parameter and mode flags that takes the bucket lock)")
 	}
 	// fields of the map struct
 	st, _ := named.Underlying().(*types.Struct)
@@ -753,15 +755,50 @@ func (m *Model) buildCache() {
 		if m.CacheCtor[i] == nil {
 			m.Problems = append(m.Problems, "constructor of "+inner.Obj().Name()+" not found")
 		}
-		// item type: element type stored through items.Store in Set
-		if set := m.CacheM[i]["Set"]; set != nil {
-			Instrs(set, func(in ssa.Instruction) {
-				if a, ok := in.(*ssa.Alloc); ok {
-					if n := namedOf(a.Type()); n != "" && structOf(a.Type()) != nil {
-						m.ItemT[i] = n
-					}
+	}
+	// item types: struct types of package cache with an int64 field and at least one bool-returning method
+	// (the expiry predicates); the generic one belongs to the generic twin
+	scope := p.Cache.Pkg.Scope()
+	for _, n := range scope.Names() {
+		tn, ok := scope.Lookup(n).(*types.TypeName)
+		if !ok {
+			continue
+		}
+		named, ok := tn.Type().(*types.Named)
+		if !ok {
+			continue
+		}
+		st, ok := named.Underlying().(*types.Struct)
+		if !ok || st.NumFields() != 2 {
+			continue
+		}
+		hasInt := false
+		for i := 0; i < st.NumFields(); i++ {
+			if b, ok := st.Field(i).Type().Underlying().(*types.Basic); ok && b.Kind() == types.Int64 {
+				hasInt = true
+			}
+		}
+		hasPred := false
+		for i := 0; i < named.NumMethods(); i++ {
+			sig := named.Method(i).Type().(*types.Signature)
+			if sig.Results().Len() == 1 {
+				if b, ok := sig.Results().At(0).Type().(*types.Basic); ok && b.Kind() == types.Bool {
+					hasPred = true
 				}
-			})
+			}
+		}
+		if !hasInt || !hasPred {
+			continue
+		}
+		if named.TypeParams() != nil && named.TypeParams().Len() > 0 {
+			m.ItemT[1] = n
+		} else {
+			m.ItemT[0] = n
+		}
+	}
+	for i := 0; i < 2; i++ {
+		if m.ItemT[i] == "" {
+			m.Problems = append(m.Problems, fmt.Sprintf("cache item type of twin %d not found (struct with an int64 expiration and a bool predicate method)", i))
 		}
 	}
 }
